@@ -77,6 +77,26 @@ int32_t psPemTryDecode(psPool_t *pool,
 
 # ifdef USE_PEM_DECODE
 
+/* strstr over a length-delimited buffer: the text ends at bufEnd or at the
+   first NUL, whichever comes first */
+static char *pemFind(const char *buf, const char *bufEnd, const char *needle)
+{
+    size_t n = Strlen(needle);
+
+    if (buf == NULL)
+    {
+        return NULL;
+    }
+    for (; buf < bufEnd && (size_t) (bufEnd - buf) >= n && *buf != '\0'; buf++)
+    {
+        if (Memcmp(buf, needle, n) == 0)
+        {
+            return (char *) buf;
+        }
+    }
+    return NULL;
+}
+
 psBool_t psPemCheckOk(const unsigned char *pemBuf,
         psSizeL_t pemBufLen,
         psPemType_t pemType,
@@ -85,12 +105,14 @@ psBool_t psPemCheckOk(const unsigned char *pemBuf,
         psSizeL_t *pemlen)
 {
     char *start, *end;
+    const char *buf = (const char *) pemBuf;
+    const char *bufEnd = buf + pemBufLen;
 
     /* Check header and encryption parameters. */
-    if (((start = Strstr((char *) pemBuf, "-----BEGIN")) != NULL) &&
-            ((start = Strstr((char *) pemBuf, "PRIVATE KEY-----")) != NULL) &&
-            ((end = Strstr(start, "-----END")) != NULL) &&
-            (Strstr(end, "PRIVATE KEY-----") != NULL))
+    if (((start = pemFind(buf, bufEnd, "-----BEGIN")) != NULL) &&
+            ((start = pemFind(buf, bufEnd, "PRIVATE KEY-----")) != NULL) &&
+            ((end = pemFind(start, bufEnd, "-----END")) != NULL) &&
+            (pemFind(end, bufEnd, "PRIVATE KEY-----") != NULL))
     {
         if (pemType != PEM_TYPE_KEY &&
                 pemType != PEM_TYPE_PRIVATE_KEY &&
@@ -99,15 +121,15 @@ psBool_t psPemCheckOk(const unsigned char *pemBuf,
             return PS_FALSE;
         }
         start += Strlen("PRIVATE KEY-----");
-        while (*start == '\x0d' || *start == '\x0a')
+        while (start < end && (*start == '\x0d' || *start == '\x0a'))
         {
             start++;
         }
     }
-    else if (((start = Strstr((char *) pemBuf, "-----BEGIN")) != NULL) &&
-            ((start = Strstr((char *) pemBuf, "PUBLIC KEY-----")) != NULL) &&
-            ((end = Strstr(start, "-----END")) != NULL) &&
-            (Strstr(end, "PUBLIC KEY-----") != NULL))
+    else if (((start = pemFind(buf, bufEnd, "-----BEGIN")) != NULL) &&
+            ((start = pemFind(buf, bufEnd, "PUBLIC KEY-----")) != NULL) &&
+            ((end = pemFind(start, bufEnd, "-----END")) != NULL) &&
+            (pemFind(end, bufEnd, "PUBLIC KEY-----") != NULL))
     {
         if (pemType != PEM_TYPE_PUBLIC_KEY &&
                 pemType != PEM_TYPE_KEY &&
@@ -116,15 +138,15 @@ psBool_t psPemCheckOk(const unsigned char *pemBuf,
             return PS_FALSE;
         }
         start += Strlen("PUBLIC KEY-----");
-        while (*start == '\x0d' || *start == '\x0a')
+        while (start < end && (*start == '\x0d' || *start == '\x0a'))
         {
             start++;
         }
     }
-    else if (((start = Strstr((char *) pemBuf, "-----BEGIN")) != NULL) &&
-            ((start = Strstr((char *) pemBuf, "CERTIFICATE-----")) != NULL) &&
-            ((end = Strstr(start, "-----END")) != NULL) &&
-            (Strstr(end, "CERTIFICATE-----") != NULL))
+    else if (((start = pemFind(buf, bufEnd, "-----BEGIN")) != NULL) &&
+            ((start = pemFind(buf, bufEnd, "CERTIFICATE-----")) != NULL) &&
+            ((end = pemFind(start, bufEnd, "-----END")) != NULL) &&
+            (pemFind(end, bufEnd, "CERTIFICATE-----") != NULL))
     {
         if (pemType != PEM_TYPE_CERTIFICATE &&
                 pemType != PEM_TYPE_ANY)
@@ -133,7 +155,7 @@ psBool_t psPemCheckOk(const unsigned char *pemBuf,
         }
 
         start += Strlen("CERTIFICATE-----");
-        while (*start == '\x0d' || *start == '\x0a')
+        while (start < end && (*start == '\x0d' || *start == '\x0a'))
         {
             start++;
         }
@@ -143,6 +165,11 @@ psBool_t psPemCheckOk(const unsigned char *pemBuf,
         return PS_FALSE;
     }
 
+    if (start > end)
+    {
+        /* "-----END" found inside the header line */
+        return PS_FALSE;
+    }
     if (pemlen != NULL)
     {
         *pemlen = (psSizeL_t) (end - start);
@@ -193,8 +220,8 @@ int32_t psPemDecode(psPool_t *pool,
     }
 
     keyBuf = (const char *)keyBufIn;
-    if (Strstr((char *) keyBuf, "Proc-Type:") &&
-        Strstr((char *) keyBuf, "4,ENCRYPTED"))
+    if (pemFind(keyBuf, keyBuf + keyBufLen, "Proc-Type:") &&
+        pemFind(keyBuf, keyBuf + keyBufLen, "4,ENCRYPTED"))
     {
 #  if defined(USE_PKCS5) && defined(USE_PBKDF1)
         if (password == NULL)
@@ -202,19 +229,28 @@ int32_t psPemDecode(psPool_t *pool,
             psTraceCrypto("No password given for encrypted private key file\n");
             return PS_ARG_FAIL;
         }
-        if ((start = Strstr((char *) keyBuf, des3encryptHeader)) != NULL)
+        if ((start = pemFind(keyBuf, keyBuf + keyBufLen,
+                 des3encryptHeader)) != NULL)
         {
             start += Strlen(des3encryptHeader);
             encrypted = 1;
-            /* we assume here that header points to at least 16 bytes of data */
+            if (start > end || (end - start) < 2 * DES3_IVLEN)
+            {
+                psTraceCrypto("Invalid private key file salt\n");
+                return PS_FAILURE;
+            }
             tmp = psHexToBinary((unsigned char *) start, cipherIV, DES3_IVLEN);
         }
-        else if ((start = Strstr((char *) keyBuf, aes128encryptHeader))
-                 != NULL)
+        else if ((start = pemFind(keyBuf, keyBuf + keyBufLen,
+                      aes128encryptHeader)) != NULL)
         {
             start += Strlen(aes128encryptHeader);
             encrypted = 2;
-            /* we assume here that header points to at least 32 bytes of data */
+            if (start > end || (end - start) < 2 * 16)
+            {
+                psTraceCrypto("Invalid private key file salt\n");
+                return PS_FAILURE;
+            }
             tmp = psHexToBinary((unsigned char *) start, cipherIV, 16);
         }
         else
@@ -312,6 +348,7 @@ psRes_t psPemCertBufToList(psPool_t *pool,
     psList_t *front, *prev, *current;
     unsigned char *start, *end, *endTmp;
     const unsigned char *chFileBuf;
+    const char *bufEnd;
     unsigned char l;
     int n = 0;
     int32_t rc;
@@ -332,13 +369,14 @@ psRes_t psPemCertBufToList(psPool_t *pool,
     l = Strlen("CERTIFICATE-----");
     Memset(current, 0x0, sizeof(psList_t));
     chFileBuf = buf;
+    bufEnd = (const char *) buf + len;
     while (len > 0)
     {
         if (
-            ((start = (unsigned char *) Strstr((char *) chFileBuf, "-----BEGIN")) != NULL) &&
-            ((start = (unsigned char *) Strstr((char *) chFileBuf, "CERTIFICATE-----")) != NULL) &&
-            ((end = (unsigned char *) Strstr((char *) start, "-----END")) != NULL) &&
-            ((endTmp = (unsigned char *) Strstr((char *) end, "CERTIFICATE-----")) != NULL)
+            ((start = (unsigned char *) pemFind((char *) chFileBuf, bufEnd, "-----BEGIN")) != NULL) &&
+            ((start = (unsigned char *) pemFind((char *) chFileBuf, bufEnd, "CERTIFICATE-----")) != NULL) &&
+            ((end = (unsigned char *) pemFind((char *) start + l, bufEnd, "-----END")) != NULL) &&
+            ((endTmp = (unsigned char *) pemFind((char *) end, bufEnd, "CERTIFICATE-----")) != NULL)
             )
         {
             n++;
@@ -357,8 +395,9 @@ psRes_t psPemCertBufToList(psPool_t *pool,
             }
             current->len = (uint16_t) (end - start);
             end = endTmp + l;
-            while (*end == '\x0d' || *end == '\x0a' || *end == '\x09'
-                   || *end == ' ')
+            while ((const char *) end < bufEnd &&
+                   (*end == '\x0d' || *end == '\x0a' || *end == '\x09'
+                    || *end == ' '))
             {
                 end++;
             }
